@@ -1,8 +1,8 @@
 package scan
 
 import (
-	"os"
 	"fmt"
+	"os"
 	"regexp"
 	"sort"
 	"strings"
